@@ -619,6 +619,9 @@ func (tr *Trans) applyContract(ct *Contract, fn *ssa.Function, sig *types.Signat
 		tr.e.assume(tr.rc, not(eq(res.C[0], intT(0))))
 	}
 	for _, en := range ct.Ensures {
+		if fn != nil && mentionsLocalsOf(fn, ct, names, en.AST) && env.hasUnresolvable(en.AST) {
+			continue // a postcondition phrased over the callee's own locals: proved there, not usable by callers
+		}
 		tr.assumeClause(env, tr.rc, en.AST)
 	}
 	tr.callerAsserts("after", short, ord, args, res, pre, tr.st)
@@ -838,6 +841,39 @@ func (tr *Trans) nameAt(name string) (ssa.Value, bool) {
 		}
 	}
 	return found, true
+}
+
+// mentionsLocalsOf reports whether a clause of fn's contract names a local variable of fn (other than its parameters
+// and results).
+func mentionsLocalsOf(fn *ssa.Function, ct *Contract, paramNames []string, e ast.Expr) bool {
+	known := map[string]bool{}
+	for _, n := range paramNames {
+		known[n] = true
+	}
+	for _, n := range ct.Results {
+		known[n] = true
+	}
+	for _, l := range ct.Lets {
+		known[l.Name] = true
+	}
+	locals := map[string]bool{}
+	for _, b := range fn.Blocks {
+		for _, in := range b.Instrs {
+			if d, ok := in.(*ssa.DebugRef); ok && !d.IsAddr {
+				if id, ok := d.Expr.(*ast.Ident); ok {
+					locals[id.Name] = true
+				}
+			}
+		}
+	}
+	found := false
+	ast.Inspect(e, func(n ast.Node) bool {
+		if id, ok := n.(*ast.Ident); ok && locals[id.Name] && !known[id.Name] {
+			found = true
+		}
+		return !found
+	})
+	return found
 }
 
 // localType: the type of a local variable of the function, from its debug references (nil if no such local).
@@ -1077,7 +1113,7 @@ func (tr *Trans) targetsOf(env *Env, e ast.Expr) ([]target, bool) {
 		}
 	case *ast.Ident:
 		if gv, ok := tr.g.specs.Ghosts[x.Name]; ok {
-			return []target{{key: "G$" + gv.Name, sort: comps(ghostType(gv))[0].Sort, whole: true, desc: src}}, false
+			return []target{{key: "G$" + gv.Name, sort: ghostSort(gv), whole: true, desc: src}}, false
 		}
 		v := env.eval(x)
 		if sl, ok := under(v.T).(*types.Slice); ok && len(v.C) == 4 && !isObjType(sl.Elem()) {
@@ -1108,6 +1144,16 @@ func (tr *Trans) targetsOf(env *Env, e ast.Expr) ([]target, bool) {
 					if st.Field(i).Name() == x.Sel.Name {
 						return tr.fieldTargets(p.Elem(), st.Field(i), base.C[0], src), false
 					}
+				}
+			}
+		}
+	case *ast.IndexExpr:
+		// ghostmap[obj]: the whole row of one object in a ghost two-level map
+		if id, ok := x.X.(*ast.Ident); ok {
+			if gv, ok := tr.g.specs.Ghosts[id.Name]; ok && gv.Type == "map2" {
+				r := env.eval(x.Index)
+				if len(r.C) == 1 {
+					return []target{{key: "G$" + gv.Name, sort: ghostSort(gv), ref: r.C[0], desc: src}}, false
 				}
 			}
 		}
